@@ -4,7 +4,7 @@
    Values are canonical rationals (Qc).  Square roots never appear: std is carried as its square, skew as
    (mu3, mu2) [the code returns mu3 / mu2^(3/2)], kurtosis as (mu4, mu2) [mu4 / mu2^2 - 3], the correlation as
    (num, dx, dy) [num / (sqrt dx * sqrt dy)], distance and bcdc as their squares. *)
-From Coq Require Import ZArith QArith Qcanon Qcabs List Bool Lia.
+From Coq Require Import NArith ZArith QArith Qcanon Qcabs List Bool Lia.
 From ScaredV Require Import Run.Compare Lib.QcSum.
 Import ListNotations.
 Local Open Scope Qc_scope.
@@ -421,3 +421,48 @@ Definition ex_expected (c : ex_case) : option (list (list Q)) :=
                  | Some rows => Some (map (map this) rows) | None => None end
   | None => None
   end.
+
+(* ================================================================ count / size boundaries (255 .. 65536)
+   Large inputs and observations are given run-length encoded (value, count) - the data are built from a few repeated
+   values - and expanded here; the checks above are then applied to the expanded case unchanged. *)
+Definition expand {A} (wl : list (A * N)) : list A := flat_map (fun p => repeat (fst p) (N.to_nat (snd p))) wl.
+Definition nats (l : list N) : list nat := map N.to_nat l.
+
+Record mv_large := {
+  ml_shape : list N; ml_axis : nat; ml_w : N; ml_in : list (fval * N);
+  ml_obs : list (mv_op * (list N * list (fval * N)))
+}.
+Definition mv_of_large (c : mv_large) : mv_case :=
+  {| mv_shape := nats (ml_shape c); mv_axis := ml_axis c; mv_w := N.to_nat (ml_w c); mv_in := expand (ml_in c);
+     mv_obs := map (fun e => (fst e, (nats (fst (snd e)), expand (snd (snd e))))) (ml_obs c) |}.
+Definition mv_large_check (c : mv_large) : bool := mv_check (mv_of_large c).
+
+Record pd_large := {
+  pl_x : list (fval * N); pl_y : list (fval * N);
+  pl_corr : option (list (fval * N)); pl_dist : option (list (fval * N)); pl_bcdc : option (list (fval * N))
+}.
+Definition oexpand {A} (o : option (list (A * N))) : option (list A) :=
+  match o with Some l => Some (expand l) | None => None end.
+Definition pd_of_large (c : pd_large) : pd_case :=
+  {| pd_x := expand (pl_x c); pd_y := expand (pl_y c);
+     pd_corr := oexpand (pl_corr c); pd_dist := oexpand (pl_dist c); pd_bcdc := oexpand (pl_bcdc c) |}.
+Definition pd_large_check (c : pd_large) : bool := pd_check (pd_of_large c).
+
+Record pad_large := {
+  pal_shape : list N; pal_in : list (Z * N); pal_target : list N; pal_offs : list N; pal_with : Z;
+  pal_obs : option (list (Z * N))
+}.
+Definition pad_of_large (c : pad_large) : pad_case :=
+  {| pa_shape := nats (pal_shape c); pa_in := expand (pal_in c); pa_target := nats (pal_target c); pa_offs := nats (pal_offs c);
+     pa_with := pal_with c; pa_obs := oexpand (pal_obs c) |}.
+Definition pad_large_check (c : pad_large) : bool := pad_check (pad_of_large c).
+
+Record ex_large := {
+  exl_data : list (fval * N); exl_prec : prec; exl_idx : list (Z * N); exl_before : nat; exl_after : nat; exl_mode : exmode;
+  exl_obs : option (list N * list (fval * N))
+}.
+Definition ex_of_large (c : ex_large) : ex_case :=
+  {| ex_data := expand (exl_data c); ex_prec := exl_prec c; ex_idx := expand (exl_idx c); ex_before := exl_before c;
+     ex_after := exl_after c; ex_mode := exl_mode c;
+     ex_obs := match exl_obs c with Some so => Some (nats (fst so), expand (snd so)) | None => None end |}.
+Definition ex_large_check (c : ex_large) : bool := ex_check (ex_of_large c).
